@@ -97,6 +97,7 @@ type Explorer struct {
 	maxViol       int
 	dupViolations int64
 	cacheHits     int64
+	natSamples    []natSample
 	concretis     map[string]int64
 	notes         map[string]int64
 	stop          bool
@@ -112,6 +113,12 @@ func NewExplorer(n int) *Explorer {
 }
 
 // take blocks until a prefix is available or exploration is finished.
+type natSample struct {
+	Model    map[string]uint64
+	Observes []string
+	Decs     []Decision
+}
+
 type workItem struct {
 	prefix []Decision
 	model  map[string]uint64 // satisfies the path condition of prefix (nil: unknown)
@@ -168,6 +175,17 @@ func (m *Machine) decideV(kind string, alts []*Term, payload int64) int {
 	i := ps.ndec
 	if i >= m.cfgInt("maxDecisions", 4000) {
 		panic(pathEnd{"inconclusive", fmt.Sprintf("UNWIND-EXCEEDED: more than %d decisions on one path%s", i, m.where())})
+	}
+	if m.fixed != nil && i >= len(ps.prefix) {
+		// replay mode: schedule / map-order / select decisions follow the recording
+		for m.fixedPos < len(m.fixedDecs) {
+			d := m.fixedDecs[m.fixedPos]
+			m.fixedPos++
+			if d.Kind == kind && d.NAlts == len(alts) {
+				ps.prefix = append(ps.prefix, d)
+				break
+			}
+		}
 	}
 	if i < len(ps.prefix) {
 		d := ps.prefix[i]
@@ -691,6 +709,7 @@ func (m *Machine) runPath(entry *ssa.Function, prefix []Decision, kept int, star
 	case "inconclusive":
 		m.ex.noteInconclusive(msg)
 	}
+	m.lastObserves = m.ps.observes
 	m.finishPath(kind)
 	m.rollback()
 }
@@ -726,6 +745,19 @@ func (m *Machine) finishPath(kind string) {
 	}
 	for _, n := range ps.notes {
 		ex.notes[n]++
+	}
+	if kind == "done" && m.cfg.Native && len(ex.natSamples) < 12 && len(ps.vars) > 0 && (ex.paths&(ex.paths-1)) == 0 {
+		// power-of-two spaced sample for native translator validation
+		names := ps.vars
+		sorts := make([]Sort, len(names))
+		for i, n := range names {
+			sorts[i] = ps.varSorts[n]
+		}
+		if m.solver.Check() == Sat {
+			if vals, err := m.solver.Values(names, sorts); err == nil {
+				ex.natSamples = append(ex.natSamples, natSample{vals, append([]string(nil), ps.observes...), append([]Decision(nil), ps.decs...)})
+			}
+		}
 	}
 	if kind == "done" && len(ex.samples) < 3 && len(ps.vars) > 0 {
 		// sample: model of a completed path
